@@ -3,6 +3,8 @@ SPECIFICATION Spec
 CONSTANTS
   MergeTag = 2
   Reps = {1, 2}
+  Authors = {1, 2}
+  Receivers = {1, 2}
   Txns = {1}
   MaxCmds = 2
   MaxSteps = 4
